@@ -344,6 +344,8 @@ def truthy(v):
     """z3 Bool for Python truthiness of v."""
     if isinstance(v, VBool):
         return v.t
+    if hasattr(v, 'truthy_'):          # finite-domain values (pyvc/finite.py)
+        return v.truthy_()
     if isinstance(v, VInt):
         if v.is_bv():
             return v.t != z3.BitVecVal(0, v.t.size())
@@ -446,6 +448,9 @@ def int_binop(op, a, b):
             return VInt(x % y)
         q = z3.If(y > 0, x / y, (-x) / (-y))
         _fact(z3.Implies(y > 0, z3.And(0 <= x % y, x % y < y, x == (x / y) * y + x % y)))
+        # linear instances (circular buffers: (i + 1) % n): valid for every y > 0
+        _fact(z3.Implies(z3.And(0 <= x, x < y), x % y == x))
+        _fact(z3.Implies(z3.And(y > 0, y <= x, x < 2 * y), x % y == x - y))
         return VInt(z3.If(y > 0, x % y, x - y * q))
     if op == '<<':
         if cy is None:
@@ -462,6 +467,13 @@ def int_binop(op, a, b):
             return VInt(x % (cy + 1))
         if cx is not None and _is_pow2_minus1(cx):
             return VInt(y % (cx + 1))
+        # constant mask with one contiguous run of ones (bits t .. a-1):  v & c == v mod 2^a - v mod 2^t  (all ints v)
+        for (c_, v_) in ((cy, x), (cx, y)):
+            if c_ is not None and c_ > 0:
+                t_ = (c_ & -c_).bit_length() - 1
+                if _is_pow2_minus1(c_ >> t_):
+                    a_ = c_.bit_length()
+                    return VInt(v_ % (1 << a_) - v_ % (1 << t_))
         for l in smt.bit_lemma_instances('and', x, y):
             _fact(l)
         return VInt(smt.band(x, y))
@@ -662,6 +674,8 @@ def fresh_name(base):
 
 def fresh_like(v, base):
     """A fresh unconstrained value of the same kind as v."""
+    if hasattr(v, 'fresh_like_'):      # finite-domain values (pyvc/finite.py)
+        return v.fresh_like_(base)
     if isinstance(v, VInt):
         if v.is_bv():
             return VInt(z3.BitVec(fresh_name(base), v.t.size()))
